@@ -171,6 +171,8 @@ func init() {
 						m.FromPeerId = "not-a-peer-id!!"
 					case "empty":
 						m.FromPeerId = ""
+					case "trailing":
+						m.FromPeerId = peer.ID(string(vio.PeerID("signed/"+c.Signer)) + "\x00\x01").String()
 					default:
 						m.FromPeerId = vio.PeerID("signed/" + c.Claimed).String()
 					}
